@@ -202,3 +202,6 @@ impl SwarmDriver {
         }
     }
 }
+
+#[cfg(maidsafe_safe_network_verif)]
+mod verif;
